@@ -29,6 +29,13 @@ func TestVerifC06(t *testing.T) {
 	rng := hk.NewRNG(hk.Seed(), "c06")
 	cases := gcmCases(rng, hk.N(1, 2))
 	cases = append(cases, wrapCases(rng, hk.N(80, 300))...)
+	// lengths whose BIT length needs more than 24 bits (exercises the upper bytes of the length block)
+	big := 1 << 21
+	cases = append(cases, &gcmCase{key: rng.Bytes(16), nonce: rng.Bytes(12), aad: rng.Bytes(big + 5), pt: rng.Bytes(16), tag: 16, label: "large-aad"})
+	cases = append(cases, &gcmCase{key: rng.Bytes(16), nonce: rng.Bytes(12), aad: rng.Bytes(3), pt: rng.Bytes(big + 3), tag: 16, label: "large-pt"})
+	if hk.Thorough() {
+		cases = append(cases, &gcmCase{key: rng.Bytes(16), nonce: rng.Bytes(13), aad: rng.Bytes(1<<24 + 1), pt: rng.Bytes(1<<24 + 17), tag: 16, label: "large-aad"})
+	}
 	// the OpenSSL fixtures, replayed against the implementation directly
 	kats, err := ref.LoadGCM()
 	if err != nil {
@@ -98,7 +105,7 @@ func TestVerifC06(t *testing.T) {
 					r.Violation(fmt.Sprintf("seal-panics:%s:%s", pn, lab), d)
 				} else if !bytes.Equal(got, want) {
 					d := c.detail()
-					d["got"], d["want"] = hk.Hex(got), hk.Hex(want)
+					d["got"], d["want"] = clip(got), clip(want)
 					where := "tag"
 					if len(got) != len(want) {
 						where = "length"
